@@ -93,7 +93,7 @@ class EvoModel:
 
 
 def hermitian_model(ctx, nsite=(2, 5), max_dim=200, min_dim=6, qn_mode=None, allow_complex=True, nterms=(2, 6),
-                    kinds=None, max_tries=30):
+                    kinds=None, max_tries=30, gm_factory=None):
     """Random small model with a Hermitian Hamiltonian (verified on the dense matrix) of spectral norm O(1)."""
     from renormalizer.mps import Mpo
     rng = ctx.rng
@@ -102,7 +102,10 @@ def hermitian_model(ctx, nsite=(2, 5), max_dim=200, min_dim=6, qn_mode=None, all
             qm = rng.choice(["none", "one", "two"], p=[0.35, 0.5, 0.15])
         else:
             qm = qn_mode
-        gm = gen.random_basis_list(rng, nsite=nsite, max_dim=max_dim, min_dim=min_dim, qn_mode=qm, kinds=kinds)
+        if gm_factory is not None:
+            gm = gm_factory(rng)
+        else:
+            gm = gen.random_basis_list(rng, nsite=nsite, max_dim=max_dim, min_dim=min_dim, qn_mode=qm, kinds=kinds)
         cplx = bool(allow_complex and rng.random() < 0.3)
         terms = gen.hermitian_terms(rng, gm, int(rng.integers(nterms[0], nterms[1] + 1)), max_support=3,
                                     allow_complex=cplx, charge_conserving=True)
